@@ -197,7 +197,7 @@ pub fn run_on_with(cfg: RunCfg, store: Store, truth: Vec<crate::refgen::Truth>, 
 fn session(w: &mut World, src: &mut dyn StepSource, trace: &mut Vec<Step>, max_steps: usize) -> Result<SessionEnd, Violation> {
     w.stats.sessions += 1;
     let o = w.cfg.oracles.clone();
-    let full = o.crash_log || o.dirty_bit || o.write_audit || o.raw_diff || o.fat_copies || o.stamps || o.fail_atomic;
+    let full = o.free_count || o.crash_log || o.dirty_bit || o.write_audit || o.raw_diff || o.fat_copies || o.stamps || o.fail_atomic;
     {
         let mut d = w.disk.borrow_mut();
         d.log_mode = if full { LogMode::Full } else { LogMode::Meta };
@@ -316,6 +316,10 @@ fn session(w: &mut World, src: &mut dyn StepSource, trace: &mut Vec<Step>, max_s
                 w.disk.borrow_mut().writes.clear();
             }
         }
+    }
+    if o.free_count && !w.faulted && how < 2 && w.geo.fat_bits == 32 && crate::rng::hash_bytes(w.cfg.dev_seed, &w.stats.sessions.to_le_bytes()) % 5 == 0 {
+        let writes = w.disk.borrow().writes.clone();
+        oracle::unmount_crash_check(w, &pre_end, &writes)?;
     }
     oracle::account_writes(w, "unmount")?;
     oracle::after_session(w, how, &pre_end)?;
